@@ -5,6 +5,7 @@ f14_0:
   ret
   call f17_0
   lea d_f14_0(%rip),%rax
+  mov wvsv1@GOTPCREL(%rip),%rax
   ret
 .section .data.d_f14_0,"aw",@progbits
 .globl d_f14_0
